@@ -335,6 +335,7 @@ def fbg_rule(chk, db):
 META_EXTRA = 'FB (library-local constant-evaluation helpers of exactly specified functions, evaluated over a finite floating-point class domain against the closed form); FBG (the vendored gcem implementation that constant evaluation uses where the run-time path is a builtin, evaluated from its own source over the same domain widened by tiny, huge and non-finite classes); SHIFT (shift counts below the promoted width of the left operand, symbolic type width).'
 META = (META[0] + " " + META_EXTRA, META[1])
 META = (META[0] + ' RAWDIFF (integer midpoint combines its arguments only in the unsigned type).', META[1])
+META = (META[0] + ' NEGMIN (no negation of a possible numeric_limits::min(): not a constant expression); NZB (classification builtins that only promise a non-zero result are used in boolean context only, because the constant folder and the run-time expansion return different non-zero values).', META[1])
 
 
 def run(chk, tier):
@@ -464,6 +465,10 @@ def run(chk, tier):
     from ..rules import iters as _ITR
     if _ITR.rawdiff_rule(chk, db) < 1:      # RAWDIFF: a signed overflow is not a constant expression although the run-time call wraps
         chk.unknown_instance('RAWDIFF', 'etl::midpoint', 'the integral overload of midpoint was not recognised')
+    from ..rules import arith as _AR
+    _AR.negmin_area(chk, D.load("checks"), [""])      # NEGMIN: `-min` is not a constant expression although the run-time call wraps
+    _AR.positive_controls(chk, D, ("NEGMIN",))
+    nzb_rule(chk, db)
     from ..rules import shift as _SH
     _SH.check(chk, db, ["_bit/", "_bitset/"], floor=20)      # SHIFT: shift counts stay below the promoted operand width
     chk.assumptions += [
@@ -474,3 +479,85 @@ def run(chk, tier):
         "compiler-conditional code in the branch clang does not take (#if defined(__clang__) ... #else) is covered by the "
         "raw-lexer census only; files_seen_only_by_lexer lists it",
     ]
+
+
+# ---- NZB: builtins that only promise "non-zero" are used in boolean context --------------------------------------------------
+NONZERO_BUILTINS = re.compile(r"^__builtin_(isinf|isnan|isfinite|isnormal|signbit|isgreater|isgreaterequal|isless|islessequal|"
+                              r"islessgreater|isunordered|isinf_sign)(f|l|f16|f32|f64|f128)?$")
+
+
+def nzb_rule(chk, db):
+    """The classification builtins return "non-zero" for true; which non-zero value is left open, and GCC's constant folder
+    and its run-time expansion pick different ones (__builtin_isinf(-inf) folds to -1 and expands to 1; __builtin_signbit
+    folds to 1 and expands to the sign bit's mask). A result that is only tested against zero / converted to bool is the same
+    in both modes; any other use (`== 1`, arithmetic, returned as an integer) makes the constant-evaluated and the executed
+    call differ. Decided per call site from the expression's parent."""
+    n = 0
+    for f in db.funcs:
+        if f.get("body") is None:
+            continue
+        parents = {}
+        for x in astx.all_exprs(f, into_lambdas=True):
+            for c in astx.children(x):
+                parents[id(c)] = x
+        ret_bool = (f.get("ret") or "").strip() == "bool"
+        returned = set()
+        for st in astx.walk_stmts(f["body"]):
+            if st.get("k") == "return" and st.get("e") is not None:
+                e = st["e"]
+                while e is not None and e.get("k") == "cast":
+                    returned.add(id(e))
+                    e = e["e"]
+                if e is not None:
+                    returned.add(id(e))
+        conds = set()
+        for st in astx.walk_stmts(f["body"]):
+            if st.get("k") in ("if", "while", "do", "for") and st.get("c") is not None:
+                conds.add(id(st["c"]))
+        for x in astx.all_exprs(f, into_lambdas=True):
+            if x.get("k") != "call" or not NONZERO_BUILTINS.match(astx.callee(x)[0] or ""):
+                continue
+            if (astx.callee(x)[0] or "").startswith("__builtin_isinf_sign"):
+                continue        # documented to return -1 / 0 / +1
+            n += 1
+            construct = astx.sig(f)
+            chk.instance("NZB")
+            cur = x
+            ok = None
+            while ok is None:
+                par = parents.get(id(cur))
+                if id(cur) in conds:
+                    ok = True
+                elif id(cur) in returned and par is None:
+                    ok = ret_bool
+                elif par is None:
+                    ok = False
+                elif par.get("k") == "cast":
+                    if par.get("ty", "").strip() == "bool":
+                        ok = True
+                    else:
+                        cur = par
+                elif par.get("k") == "un" and par["op"] == "!":
+                    ok = True
+                elif par.get("k") == "bin" and par["op"] in ("&&", "||"):
+                    ok = True
+                elif par.get("k") == "cond" and par.get("c") is cur:
+                    ok = True
+                elif par.get("k") == "bin" and par["op"] in ("==", "!="):
+                    other = par["r"] if par["l"] is cur else par["l"]
+                    try:
+                        ok = astx.int_value(astx.strip_casts(other)) == 0
+                    except Exception:
+                        ok = False
+                else:
+                    ok = False
+            chk.obligation("NZB", construct, ok)
+            if not ok:
+                chk.violation("NZB", construct, "nonzero-builtin-value-used",
+                              "%s: `%s` is used as a number (`%s`); the builtin only promises a non-zero value for true and the "
+                              "compiler's constant folder and its run-time expansion return different ones (GCC: "
+                              "__builtin_isinf(-inf) is -1 when folded and 1 when executed)"
+                              % (astx.loc(f, x), astx.show(x, 40), astx.show(parents.get(id(cur)) or cur, 60)), {"where": astx.loc(f)})
+    if n < 2:
+        chk.analysis_broken("NZB: only %d classification builtin calls found (floor 2)" % n)
+    return n
